@@ -54,9 +54,10 @@ def zygote(hash_seed):
     return p
 
 
-def ask(hash_seed, history, files=None, versions=None):
+def ask(hash_seed, history, files=None, versions=None, repeat=None):
     p = zygote(hash_seed)
-    p.stdin.write(json.dumps({"history": history, "timeout": 120, "files": files or {}, "file_versions": versions or []}) + "\n")
+    p.stdin.write(json.dumps({"history": history, "timeout": 900 if repeat else 120, "files": files or {}, "file_versions": versions or [],
+                              "repeat": repeat or []}) + "\n")
     p.stdin.flush()
     line = p.stdout.readline()
     if not line:
@@ -119,6 +120,14 @@ class C17(object):
         vseed = int(os.environ.get("VERIF_SEED", "1"))
         hs = self.hash_seeds(vseed)
         slot = rng.below(4)
+        if i < (1 if tier == "quick" else 8):
+            # marathon: a long-lived interpreter that has assembled tens of thousands of programs (counters, caches and
+            # tables that only wear out with use), then P
+            q = rng.choice([[" LEAX T,PCR\n", "T NOP \n"], [" LDA T,PCR\n", " NOP \n", "T RTS \n"], ["S LDX #S\n", " LEAY S,PCR\n", " BRA S\n"]])
+            p_lines = G.render(G.ProgGen(rng.fork("p"), n=rng.randint(3, 10), features=["inh", "imm", "mem", "pcr", "br", "idx"]).program())
+            n = 20_000 if tier == "quick" else rng.choice([70_000, 140_000, 200_000])
+            return {"hash_seed": hs[slot], "slot": slot, "history": [q, p_lines, list(q)], "repeat": [n, 1, 1], "shapes": ["marathon"],
+                    "relation": "marathon", "deco": None, "files": {}, "file_versions": None, "no_ddmin": True}
         k = rng.weighted([(0, 1), (1, 3), (2, 3), (3, 2), (4, 1), (6, 1)])
         history = []
         shapes = []
@@ -205,7 +214,10 @@ class C17(object):
         hist = case["history"]
         files = case.get("files") or {}
         versions = case.get("file_versions") or []
-        warm = ask(case["hash_seed"], hist, files, versions)
+        warm = ask(case["hash_seed"], hist, files, versions, case.get("repeat"))
+        if case.get("repeat"):
+            res.stats["fault:prior_assembly"] += sum(case["repeat"]) - len(case["repeat"])
+            res.stats["probe:marathon_history"] += 1
         if versions:
             res.stats["fault:included_file_edited_between_assemblies"] += 1
         if files:
